@@ -493,9 +493,10 @@ namespace
                 {
                     // Check if exit condition is met
                     auto updated = *value + m_for.step();
+                    // Negated "still inside" test: a NaN counter, end or step ends the loop instead of running it forever
                     if (m_for.step() >= 0 ?
-                        updated > m_for.to() :
-                        updated < m_for.to())
+                        !(updated <= m_for.to()) :
+                        !(updated >= m_for.to()))
                     {
                         return result::ok;
                     }
@@ -526,7 +527,7 @@ namespace
 
 
             auto step_is_rero = std::abs(step) <= std::numeric_limits<float>::epsilon();
-            if (!step_is_rero && (step > 0 ? from > to : to > from))
+            if (!step_is_rero && (step > 0 ? !(from <= to) : !(from >= to)))
             {
                 return {};
             }
